@@ -1,10 +1,10 @@
 SPECIFICATION Spec
 CONSTANTS
   Configs <- TheConfigs
-  ScriptLen = 1
+  ScriptLen = 2
   LongScripts = TRUE
   Ops <- AllOps
-  Formats = {"xml", "opl"}
+  Formats = {"xml"}
   Comps = {"plain", "gzip", "bzip2"}
   Pools = {TRUE}
   Bounds = {1}
@@ -14,5 +14,5 @@ CONSTANTS
   FdFix = TRUE
   GenFormats = {"xml"}
   GenComps = {"plain"}
-  GenScriptLen = 1
-INVARIANTS LogAllowed ExportTerminal
+  GenScriptLen = 0
+INVARIANTS TypeOK LogAllowed CompleteOrThrows NeverLost NoSpuriousException RefusesAfterException FutureReadOnce NoThreadLeft NoFdLeft QueueBound
